@@ -496,15 +496,31 @@ def v0_11_1 : Ver := ⟨0, 11, 1⟩
 def v0_13_2 : Ver := ⟨0, 13, 2⟩
 def v0_13_4 : Ver := ⟨0, 13, 4⟩
 
+/-- SWITCH (the model follows the code). `false`: `/repo` as it is — `VerifyTransactions` accepts
+declare-v0 and nonce-less L1-handler transactions (whose hash is not recomputed) in blocks of every
+version. `true`: `/repo` with `proposed-fixes/C02-unverifiable-tx-kinds-in-new-blocks.diff` applied —
+from 0.13.2 on they are rejected (`requireRecomputableHash`). The harness compares
+`verifyTransactions` on exactly these transactions with the real function (op `vtx`), so a wrong
+setting shows up as a correspondence mismatch. -/
+def strictTxKinds : Bool := false
+
+/-- `requireRecomputableHash` of the proposed fix. -/
+def recomputable : Tx → Bool
+  | .declare d => !verIs d.version 0
+  | .l1Handler l => l.nonce.isSome
+  | _ => true
+
 /-- `VerifyTransactions`: from 0.11.0 on every transaction hash must recompute. -/
 def verifyTransactions (chain : Term) (txs : List Tx) (version : Bytes) : Bool :=
   match parseVersion version with
   | none => false
   | some v =>
     if v.lt v0_11_0 then true
-    else txs.all (fun t => match txHash chain t, t.hash with
-                           | some c, some h => c == h
-                           | _, _ => false)
+    else txs.all (fun t =>
+      (!(strictTxKinds && v.ge v0_13_2) || recomputable t) &&
+      (match txHash chain t, t.hash with
+       | some c, some h => c == h
+       | _, _ => false))
 
 /-! ## Commitments -/
 
